@@ -61,7 +61,7 @@ def parseIo (toks : List String) : Events :=
   toks.foldl (fun (e : Events) tok =>
     if tok.startsWith "r:" then
       let v := (tok.drop 2).toString
-      let ev : RdEv := if v == "b" then .err .wouldBlock else if v == "e" then .eof
+      let ev : RdEv := if v == "b" then .err .wouldBlock else if v == "e" || v == "z" then .eof
         else if v.startsWith "x" then .err (parseKind (v.drop 1).toString) else .data (unhex v)
       { e with rd := e.rd ++ [ev] }
     else if tok.startsWith "w:" then
